@@ -33,8 +33,8 @@ META = {
         "for f = 0 the one-step algorithm is the exact inverse of llh2trs; the exact solution of the latitude equation is a "
         "fixed point of the Halley step (partial: the published accuracy of one step over the height range is NOT a theorem). "
         "Verdict 0 of the correspondence is proved to mean: the implementation's doubles are within 1e-8 m + 4 ulp of the "
-        "exact-arithmetic result of the modelled algorithm (check_trs2llh_sound / check_llh2trs_sound) and the point on the "
-        "normal through them is within 1e-6 m / 2 mm of the input (geo_cert_sound).  Ellipsoid retention: for every table "
+        "exact-arithmetic result of the modelled algorithm and the point on the "
+        "normal through them is within 1e-6 m / 2 mm of the input (geo_cert_tolerance).  Ellipsoid retention: for every table "
         "of constructor call sites that forwards everywhere, every operation list (conversion, slice, subset, deep copy, "
         "arithmetic, insert, .pos, view, factory) keeps the ellipsoid at every step (induction); the table is regenerated "
         "from midgard/data/_position.py on every run and `forwarding_table_all_true` is checked on it.  The models are tied "
@@ -50,8 +50,8 @@ META = {
 
 THEOREMS = [
     "ellipsoid_params", "ellipsoid_table_published", "llh2trs_on_normal", "trs2llh_lon", "trs2llh_mirror", "trs2llh_pole",
-    "trs2llh_equator_lat", "halley_fixed_point_partial",
-    #TODO
+    "trs2llh_equator_lat", "halley_fixed_point_partial", "halley_exact_on_surface", "trs2llh_exact_on_sphere",
+    "check_trs2llh_sound", "check_llh2trs_sound", "geo_cert_tolerance",
     "ellipsoid_preserved", "forwarding_ops_preserve", "check_flow_sound", "c05_ellipsoid_dropped_refuted",
 ]
 
